@@ -183,6 +183,7 @@ class World:
         self.bars = []          # (t, pair, shape)
         self.bars_since = []    # per order: number of bars of its pair since acceptance
         self.cancelled = set()  # indices of orders whose cancellation succeeded
+        self.last_kind = None
         self.results = []       # per action: None or the class name of what it raised
         _ids.reset()
 
@@ -208,9 +209,10 @@ class World:
         placed = None
         loans_before = set(lo.id for lo in e._loan_mgr._loans.get_all())
         try:
-            if a[0] == "bar":
+            if a[0] in ("bar", "bar="):
                 _, pi, si = a
-                self.t += 1
+                if a[0] == "bar":  # "bar=": another bar of the pair with the SAME timestamp (e.g. hourly and daily feeds)
+                    self.t += 1
                 d._set_now(T(self.t))
                 o, h, l, c, v = (D(x) for x in SHAPES[si])
                 v = v * unit(cfg)  # volumes are expressed in units of the base precision
@@ -257,10 +259,11 @@ class World:
                 raise ValueError(a)
         except errors.Error as x:
             # a bar is not a request: nothing may be raised while the exchange processes it
-            raised = ("crash" if a[0] == "bar" else "rejected", type(x).__name__, str(x)[:80])
+            raised = ("crash" if a[0] in ("bar", "bar=") else "rejected", type(x).__name__, str(x)[:80])
         except Exception as x:  # noqa: an internal error (assertion, KeyError, decimal error...) is never acceptable
             raised = ("crash", type(x).__name__, str(x)[:80])
         self.results.append(None if raised is None else raised[1])
+        self.last_kind = a[0]
         new_loans = []
         for lo in e._loan_mgr._loans.get_all():
             if lo.id not in loans_before:
@@ -272,7 +275,10 @@ class World:
     def applicable(self, a):
         """Strategy actions are issued from handlers, i.e. after at least one bar (so that now() exists); cancel/repay
         of an index that does not exist yet would only duplicate the 'unknown id' action."""
-        if a[0] != "bar" and self.t == 0:
+        if a[0] == "bar=" and (self.t == 0 or self.last_kind not in ("bar", "bar=")):
+            # bars sharing a timestamp are all processed before any strategy handler of that timestamp runs
+            return False
+        if a[0] not in ("bar", "bar=") and self.t == 0:
             # the documented exception: orders (not loans) may be placed before the first event; there is no "now" yet,
             # hence no acceptance event, and a market buy cannot estimate what to reserve
             if not (self.cfg.get("pre_bar") and a[0] in ("ord", "cancel")):
@@ -281,7 +287,7 @@ class World:
             return False
         if a[0] == "repay" and a[1] >= len(self.lids):
             return False
-        if a[0] in ("bar", "ord") and a[3 if a[0] == "ord" else 1] >= self.npairs:
+        if a[0] in ("bar", "bar=", "ord") and a[3 if a[0] == "ord" else 1] >= self.npairs:
             return False
         if a[0] == "bar" and self.cfg.get("lend") and PAIRS[a[1]].quote_symbol != "USD":
             # precondition (DESIGN.md 5b): a margin account only gets fills on a cross pair once both of its symbols can
@@ -329,7 +335,8 @@ class World:
         stale = sum(1 for it in cont._open_items if not it.is_open)
         reindex = (cont._reindex_counter % cont._reindex_every, stale)
         closes = tuple(sorted(self.close.items()))
-        return (bal, referenced, rest, lref, lrest, closes, reindex, self.t > 0)
+        # (whether the last action was a bar decides if a same-timestamp bar may follow)
+        return (bal, referenced, rest, lref, lrest, closes, reindex, self.t > 0, self.last_kind in ("bar", "bar="))
 
 
 def build(cfg, hist):
@@ -417,6 +424,7 @@ def alphabet_liq(cfg):
     """Liquidity-focused alphabet: thin bars (1, 2.5, 2.75, 10 units of liquidity at 25%), competing orders, cancels."""
     u = unit(cfg)
     A = [("bar", 0, si) for si in (10, 0, 9, 1, 4, 11, 12, 13)]
+    A.append(("bar=", 0, 0))  # a second bar with the same timestamp
     for side in ("B", "S"):
         for n in (1, 2, 3):
             A.append(("ord", "lim", side, 0, str(n * u), "100", None, False, False))
